@@ -797,7 +797,7 @@ func c01fanout(c *an.Ctx) {
 // fieldOfTracked: v is a load of field `name` of a tracked *Message.
 func fieldOfTracked(v ssa.Value, name string, st *an.PathState) bool {
 	f, base := an.LoadedField(an.Strip(v))
-	return f != nil && f.Name() == name && base != nil && st.Has(base)
+	return f != nil && an.FName(f) == name && base != nil && st.Has(base)
 }
 
 func c01pump(c *an.Ctx) {
